@@ -117,6 +117,12 @@ func (n *network) decide(src, dst string) (bool, time.Duration, *endpoint) {
 	return true, d, ep
 }
 
+func (n *network) down(dst string) bool {
+	n.mu.Lock()
+	defer n.mu.Unlock()
+	return n.eps[dst] == nil
+}
+
 func (n *network) reachable(src, dst string) (*endpoint, bool) {
 	n.mu.Lock()
 	defer n.mu.Unlock()
@@ -186,6 +192,11 @@ func (c *netConn) SendMessageBatch(batch pb.MessageBatch) error {
 	}
 	ok, d, ep := n.decide(c.t.addr, c.target)
 	if !ok {
+		if n.down(c.target) {
+			// the host is not there (restarting): the connection breaks, the sender
+			// closes it and is told that the target is unreachable
+			return errUnreachable
+		}
 		return nil // silently lost
 	}
 	// private copy: the sender reuses the batch
